@@ -763,9 +763,9 @@ def rule_emission(ck, F, X):
         if b.get("hir") is None or b.get("closure") or b["path"] not in live or "tests::" in b["path"] or "yaserde_tests" in b["path"]:
             continue
         nb = Hh.norm_body(b)
-        pushes = [x for x in Hh.exprs(nb["value"]) if x.get("k") == "MethodCall" and x["name"] == "push" and Hh.describe(x["recv"]).endswith("nodes")
+        pushes = [x for x in Hh.exprs(nb["value"]) if x.get("k") == "MethodCall" and x["name"] in ("push", "extend") and Hh.describe(x["recv"]).endswith("nodes")
                   and "RustNode" in ((Hh.strip(x["recv"]).get("adj_ty") or "") + (Hh.strip(x["recv"]).get("ty") or ""))]
-        if pushes:
+        if pushes and _converts_components(F, nb):
             holders.append((b, nb, pushes))
     if not holders:
         ck.undecided("R5", "schema-reader", "-", "no function pushing converted components onto RustDocument.nodes was found")
@@ -776,6 +776,14 @@ def rule_emission(ck, F, X):
         exits = []
         for lp in loops:
             _find_exits(lp["body"], exits, False)
+        # the same walk written as internal iteration: `children().try_for_each(|child| ..)` (the closure's `return` ends a round, an
+        # `Err` ends the walk with that error, as `?` does in a loop)
+        inner = [x for x in Hh.exprs(nb["value"]) if x.get("k") == "MethodCall" and x["name"] in ("for_each", "try_for_each") and x["args"]
+                 and Hh.strip(x["args"][0]).get("k") == "Closure" and "children" in Hh.describe(x["recv"])
+                 and not any(f".{a}(" in Hh.describe(x["recv"]) for a in ("take", "take_while", "map_while", "skip", "skip_while", "step_by", "rev"))]
+        if len(pushes) == 1 and not loops and len(inner) == 1 and any(p_ is y for p_ in pushes for y in Hh.exprs(inner[0]["args"][0])):
+            ck.ok("R5", "read_xsd-push-once", Hh.sp(pushes[0]), f"{short}: one push per successfully converted child, the walk over the children runs to exhaustion")
+            continue
         if len(pushes) == 1 and len(loops) == 1 and not exits and "children" in Hh.describe(loops[0]["iter"]):
             ck.ok("R5", "read_xsd-push-once", Hh.sp(pushes[0]), f"{short}: one push per successfully converted child, loop runs to exhaustion")
         else:
@@ -794,10 +802,19 @@ def schema_readers(F):
         if b.get("hir") is None or b.get("closure") or b["path"] not in live or "tests::" in b["path"] or "yaserde_tests" in b["path"]:
             continue
         nb = Hh.norm_body(b)
-        if any(x.get("k") == "MethodCall" and x["name"] == "push" and Hh.describe(x["recv"]).endswith("nodes")
-               and "RustNode" in ((Hh.strip(x["recv"]).get("adj_ty") or "") + (Hh.strip(x["recv"]).get("ty") or "")) for x in Hh.exprs(nb["value"])):
+        if any(x.get("k") == "MethodCall" and x["name"] in ("push", "extend") and Hh.describe(x["recv"]).endswith("nodes")
+               and "RustNode" in ((Hh.strip(x["recv"]).get("adj_ty") or "") + (Hh.strip(x["recv"]).get("ty") or "")) for x in Hh.exprs(nb["value"])) \
+                and _converts_components(F, nb):
             out.append(b["path"])
     return out
+
+
+def _converts_components(F, nb):
+    """does the function call a component converter (Node, &mut RustDocument) -> Result<RustNode, _>? (what it appends to `nodes` is
+    what it converted; the merge of two documents appends as well, but converts nothing)"""
+    from rules import c10 as C10
+    convs = set(C10.component_converters(F))
+    return any(x.get("k") in ("Call", "MethodCall") and (Hh.callee_path(x) or "") in convs for x in Hh.exprs(nb["value"]))
 
 
 def _hands_own_node_through_table(F, readers):
